@@ -66,6 +66,13 @@ def _worker(seeds):
         else:
             b = a[:-1] + rng.choice(ALPHA) if a else rand_name(rng, 2)
         fail = None
+        plain = True
+        if rng.random() < 0.3:
+            # markup in the names themselves: matching is defined on the strip_code()'d text (entities become
+            # their characters, comments / templates / tags disappear)
+            a2, b2 = (with_markup(rng, a) if rng.random() < 0.7 else a), (with_markup(rng, b) if rng.random() < 0.7 else b)
+            plain = (a2, b2) == (a, b)
+            a, b = a2, b2
         try:
             ca, cb = parse(a), parse(b)
             res = ca.matches(b)
@@ -79,7 +86,7 @@ def _worker(seeds):
                 fail = "string / Wikicode / node arguments disagree"
             elif res != (ref_clean(sa) == ref_clean(sb)):
                 fail = "result %r differs from the normal-form comparison of %r and %r" % (res, sa, sb)
-            else:
+            elif plain:
                 ws1, ws2 = rng.choice(["", " ", "\n ", "\t", "_"]), rng.choice(["", " ", " \n", "_ "])
                 if ca.matches(ws1 + b + ws2) != res and not (b == "" ):
                     fail = "sensitive to surrounding whitespace %r %r" % (ws1, ws2)
@@ -90,7 +97,7 @@ def _worker(seeds):
                     b2 = core[0].upper() + core[1:]
                     if ca.matches(b2) != res:
                         fail = "sensitive to the case of the first character"
-            if fail is None:
+            if fail is None and plain:
                 bm = with_markup(rng, b)
                 if bm != b and parse(bm).strip_code() == sb and ca.matches(bm) != res:
                     fail = "sensitive to markup that strip_code removes: %r" % bm
